@@ -33,13 +33,18 @@ def ens_layout(rng, ename, nrep, nmin=5, nmax=60, bare=False):
     chains = []
     for r in range(nrep):
         n = int(rng.integers(nmin, nmax + 1))
-        cls = str(rng.choice(['contig', 'strided', 'gapped', 'gapped']))
+        cls = str(rng.choice(['contig', 'strided', 'gapped', 'gapped', 'blocks'])) if nrep == 1 and rng.random() < 0.5 else str(rng.choice(['contig', 'strided', 'gapped', 'gapped']))
         first = int(rng.integers(1, 40))
         mult = int(rng.choice([1, 1, 2]))
         if cls == 'contig':
             idl = range(first, first + n * g, g)
         elif cls == 'strided':
             idl = range(first, first + n * g * mult, g * mult)
+        elif cls == 'blocks':
+            # two stretches with a hole so wide that whole ranges of lags below w_max are realised by no pair of configurations
+            n1 = max(3, n // 2)
+            hole = int(rng.integers(3, 7)) * n
+            idl = [first + g * p for p in range(n1)] + [first + g * (n1 + hole + p) for p in range(n - n1)]
         else:
             m = n + int(rng.integers(1, n + 1))
             keep = sorted(rng.choice(np.arange(m), size=n, replace=False).tolist())
